@@ -49,6 +49,36 @@ harness(void)
 	D.d_ops.d_connect = my_connect;
 	nng_err rv = (nng_err) ND(vint);
 	D.d_con_aio.a_result = rv;
+#ifdef STARTAIO
+	/* C02: nng_dialer_start_aio with a user aio in ANY state (fresh, stopped,
+	 * zero timeout, aborted beforehand): the operation completes exactly once */
+	{
+		int cls = STARTAIO; /* 0 fresh, 1 stopped, 2 zero timeout, 3 aborted before start */
+		nni_aio_init(&user, NULL, NULL);
+		if (cls == 1)
+			nni_aio_stop(&user);
+		if (cls == 2)
+			nni_aio_set_timeout(&user, NNG_DURATION_ZERO);
+		if (cls == 3)
+			nni_aio_abort(&user, NNG_ECANCELED);
+		nni_aio_reset(&user);
+		if (cls == 3) {
+			user.a_abort  = true; /* (reset clears the latch; the abort arrives after reset, before start) */
+			user.a_result = NNG_ECANCELED;
+		}
+		env_aio_submit(&user);
+		int r0 = nni_dialer_start_aio(&D, 0, &user);
+		CHECK(r0 == 0, "dial is started");
+		if (connects == 1) {
+			/* the transport finishes the attempt */
+			dialer_connect_cb(&D);
+		}
+		CHECK(env_aio_completed(&user) == 1, "C02: the dial operation completes exactly once whatever state the aio was submitted in");
+		WITNESS("start_aio");
+		WITNESS("end");
+		return;
+	}
+#endif
 #ifdef USERAIO
 	nni_aio_init(&user, NULL, NULL);
 	env_aio_submit(&user);
